@@ -754,7 +754,11 @@ func directed(r drv.Rand, w *emit.Writer) {
 func main() {
 	cfg := drv.Parse()
 	r := drv.NewRand(cfg.Seed)
-	w := emit.NewWriter(cfg.Out, "C03_spec", 0, cfg.Only)
+	shard := 0 // quick: spread over 16 coqc processes
+	if !cfg.Quick {
+		shard = 250 // bounds coqc memory (about 2.5 MB per case)
+	}
+	w := emit.NewWriter(cfg.Out, "C03_spec", shard, cfg.Only)
 	directed(r, w)
 	nv := cfg.Count(900, 14000)
 	nh := cfg.Count(700, 10000)
